@@ -112,7 +112,9 @@ UseItems(uk) ==
       [] uk = "um" -> <<TestM("test_1", <<>>, <<"n">>, <<>>, <<>>)>>
       [] uk = "uc" -> <<TestM("test_1", <<>>, <<>>, <<"n">>, <<>>)>>
       [] uk = "pm" -> <<PMark(<<"n">>), Test("test_1", <<>>)>>
-      [] uk = "ip" -> <<TestM("test_1", <<"n">>, <<>>, <<>>, <<"n">>)>>
+      \* indirect parametrize STACKED ABOVE a usefixtures mark on one function (the renderer writes the parametrize
+      \* decorator first): the usages of one function are then recorded out of line order (mark, indirect, parameter)
+      [] uk = "ip" -> <<TestM("test_1", <<"n">>, <<"n">>, <<>>, <<"n">>)>>
 
 WsOf(c) ==
     [f \in MCFiles |->
